@@ -122,6 +122,7 @@ func NewExplorer(prog *ssa.Program, h *ssa.Function) *Explorer {
 	registerBlobs(ex)
 	registerSnapshots(ex)
 	registerSigModel(ex)
+	registerHashModel(ex)
 	registerGradingModel(ex)
 	registerRegexModel(ex)
 	registerCtxModel(ex)
